@@ -501,6 +501,23 @@ def _run_rand(spec, rec):
     rec.check(np.array_equal(fcp, ~base_raw), "invert/copy-plain-of-inverted",
               lambda: f"copy() of an inverted filter gives "
                       f"{np.asarray(fcp).tolist()}, expected {(~base_raw).tolist()}")
+    # the classification of a point does not depend on the other points of the call:
+    # every point alone, and a far-away point alone (nothing near the polygon)
+    for tag, flt, whole in (("plain", pf, np.asarray(f, dtype=bool)),
+                            ("inverted", pfi, np.asarray(fi, dtype=bool))):
+        alone = np.array([bool(np.asarray(flt.filter(P[k:k + 1, 0], P[k:k + 1, 1]))[0])
+                          for k in range(len(P))], dtype=bool)
+        rec.check(np.array_equal(alone, whole), f"api/filter-pointwise/{tag}",
+                  lambda: f"{tag} filter: points evaluated one by one give "
+                          f"{alone.tolist()}, evaluated together {whole.tolist()}; "
+                          f"polygon {verts}")
+        span = float(np.abs(V).max()) + 1.0
+        far = np.array([[1e3 * span, 1e3 * span], [-1e3 * span, 7.0 * span]])
+        gfar = np.asarray(flt.filter(far[:, 0], far[:, 1]), dtype=bool)
+        rec.check(np.array_equal(gfar, np.array([tag == "inverted"] * 2)),
+                  f"api/filter-far-points/{tag}",
+                  lambda: f"{tag} filter classifies far-away points {far.tolist()} as "
+                          f"{gfar.tolist()}")
     # coordinate arrays of different dtypes (integer features such as `index` or
     # `frame` on one axis, float32 data): the conversions to double are exact, so the
     # classification must be that of the same double values on *every* point
